@@ -4,8 +4,9 @@
 //!
 //! Usage:  rs2coq <src-dir>            (prints gen/Src.v on stdout: rules 1-13 only; see run.sh)
 //!         rs2coq <src-dir> <out-dir>  (writes Src.v, SrcBigint.v, SrcSlow.v, SrcParse.v and the four
-//!                                      SrcFront*.v into the existing directory <out-dir>: rules
-//!                                      1-27; the front-ends are read below <src-dir>/..)
+//!                                      SrcFront*.v and SrcStackVec.v into the existing directory
+//!                                      <out-dir>: rules 1-30; the front-ends are read below
+//!                                      <src-dir>/..)
 //!
 //! # TRANSLATION RULES (this program is part of the trusted base; the rules are deliberately dumb)
 //!
@@ -193,6 +194,36 @@
 //!     `pub use self::parse::parse_float;`).  A missing / unparsable front-end file, or a function
 //!     that cannot be translated, is OMITTED in that front-end's output file only.
 //!
+//! Rules 28-30 ("raw mode") translate the unsafe vector back-end: every function of `impl StackVec`
+//! (stackvec.rs), its `Deref::deref`, and once more `bigint::shl_limbs`, over the cell-level memory
+//! model of model/RawVec.v (gen/SrcStackVec.v: `rs_sv_<fn> (L : limits) (b : build) ..`; rule 23
+//! stays as it is for the list level).  Everything not mentioned is as in rules 1-27.
+//!
+//! 28. `StackVec` / `Self` / `VecType` / `&self` / `&mut self` = `raw` (`mkRaw cells rlen`; the struct
+//!     declaration `{ data: [mem::MaybeUninit<bigint::Limb>; bigint::BIGINT_LIMBS], length: u16 }`
+//!     is checked).  `self.length` = `rlen r` (a u16: `as_u16`, `u16_add`, `u16_sub` = `uop b 16`,
+//!     defined in the file's prelude); `self.length = e` = `mkRaw (cells r) e`; `Self { length: e,
+//!     data: [mem::MaybeUninit::uninit(); bigint::BIGINT_LIMBS] }` = `mkRaw (repeat None (Z.to_nat
+//!     (BIGINT_LIMBS L))) e`; `bigint::BIGINT_LIMBS` = `BIGINT_LIMBS L`; `bigint::Limb` = u64.  A
+//!     method call on a raw vector is the call of the translated `rs_sv_<fn>` (`self` first; rule 7
+//!     returns the updated `raw`).  An `Option<()>` result is a FLAG (`true` = `Some(())`) next to
+//!     the state, which is returned in both cases (`outcome (raw * bool)`; this differs from rule 15
+//!     on purpose: the StackVec functions leave the vector unchanged on `None`); `Some(())` =
+//!     `true`, `None` = `false`, `e?` = `if flag then rest else return None-with-the-state`.
+//!     `Option<Limb>` with `&mut self` = `outcome (raw * option Z)`.
+//! 29. Raw pointers are translation-time values: `x.as_ptr()` / `x.as_mut_ptr()` / `self.data.as_ptr()`
+//!     on a raw vector = the base of its own buffer (cell 0; in Rust these go through `Deref`),
+//!     `p.add(k)` on a base pointer = cell `k` (`k` evaluated once, with its checks), `s.as_ptr()`
+//!     on a slice parameter = that foreign slice, `p as *const T` / `*mut T` = `p`; they may be
+//!     bound by an immutable `let` and used only as arguments of: `ptr::write(p, v)` = `cs <-
+//!     write_cell (cells r) k v` (then `mkRaw cs (rlen r)`), `ptr::read(p)` = `read_cell (cells r)
+//!     k`, `ptr::copy_nonoverlapping(s.as_ptr(), p, s.len())` = `write_cells (cells r) k s` (the
+//!     count must be literally `s.len()`), `ptr::copy(p, q, n)` inside one buffer = `copy_within
+//!     (cells r) k1 k2 n`, `ptr::write_bytes(base, 0, n)` = `write_zeros (cells r) n`,
+//!     `slice::from_raw_parts(base, n)` = `raw_slice (cells r) n` (SrcLibRaw).  Any other use of a
+//!     pointer is refused.
+//! 30. `for i in a..b` (usize, effect-free bounds) = `rs_for` over `zrange a b` (SrcLibRaw).
+//!
 //! # CHECKS THAT MAKE THE TRANSLATION FAIL CLOSED
 //!
 //! The rules above read the constructs they understand and resolve names by their spelling.  The
@@ -279,6 +310,7 @@ mod emit;
 mod expr;
 mod lower;
 mod macros;
+mod raw;
 mod ty;
 mod vecs;
 
@@ -305,20 +337,53 @@ struct Target {
     coq: &'static str,
     /// path shown in the comment above the definition when it is not `file`
     shown: &'static str,
+    /// rules 28-30: cell-level translation (`StackVec` / `VecType` = `raw`)
+    raw: bool,
 }
 
 const fn t(out: usize, file: &'static str, owner: &'static str, name: &'static str) -> Target {
-    Target { out, file, owner, name, fuel: 0, fuels: &[], coq: "", shown: "" }
+    Target { out, file, owner, name, fuel: 0, fuels: &[], coq: "", shown: "", raw: false }
 }
 const fn tf(out: usize, file: &'static str, name: &'static str, fuels: &'static [&'static str]) -> Target {
-    Target { out, file, owner: "", name, fuel: 0, fuels, coq: "", shown: "" }
+    Target { out, file, owner: "", name, fuel: 0, fuels, coq: "", shown: "", raw: false }
 }
 const fn tn(out: usize, file: &'static str, owner: &'static str, name: &'static str, fuels: &'static [&'static str], coq: &'static str) -> Target {
-    Target { out, file, owner, name, fuel: 0, fuels, coq, shown: "" }
+    Target { out, file, owner, name, fuel: 0, fuels, coq, shown: "", raw: false }
 }
 
-const OUT_FILES: [&str; 8] =
-    ["Src.v", "SrcBigint.v", "SrcSlow.v", "SrcParse.v", "SrcFrontSimple.v", "SrcFrontFuzz.v", "SrcFrontTest.v", "SrcFrontEtc.v"];
+const OUT_FILES: [&str; 9] = [
+    "Src.v",
+    "SrcBigint.v",
+    "SrcSlow.v",
+    "SrcParse.v",
+    "SrcFrontSimple.v",
+    "SrcFrontFuzz.v",
+    "SrcFrontTest.v",
+    "SrcFrontEtc.v",
+    "SrcStackVec.v",
+];
+
+/// rules 28-30: gen/SrcStackVec.v = the functions of `impl StackVec` (dependency order), its
+/// `Deref::deref`, and the cell-level translation of `bigint::shl_limbs`
+const RAW_FNS: [(&str, &str, &str, &str); 17] = [
+    ("stackvec.rs", "StackVec", "new", "rs_sv_new"),
+    ("stackvec.rs", "StackVec", "set_len", "rs_sv_set_len"),
+    ("stackvec.rs", "StackVec", "len", "rs_sv_len"),
+    ("stackvec.rs", "StackVec", "is_empty", "rs_sv_is_empty"),
+    ("stackvec.rs", "StackVec", "capacity", "rs_sv_capacity"),
+    ("stackvec.rs", "StackVec", "push_unchecked", "rs_sv_push_unchecked"),
+    ("stackvec.rs", "StackVec", "try_push", "rs_sv_try_push"),
+    ("stackvec.rs", "StackVec", "pop_unchecked", "rs_sv_pop_unchecked"),
+    ("stackvec.rs", "StackVec", "pop", "rs_sv_pop"),
+    ("stackvec.rs", "StackVec", "extend_unchecked", "rs_sv_extend_unchecked"),
+    ("stackvec.rs", "StackVec", "try_extend", "rs_sv_try_extend"),
+    ("stackvec.rs", "StackVec", "truncate_unchecked", "rs_sv_truncate_unchecked"),
+    ("stackvec.rs", "StackVec", "resize_unchecked", "rs_sv_resize_unchecked"),
+    ("stackvec.rs", "StackVec", "try_resize", "rs_sv_try_resize"),
+    ("stackvec.rs", "StackVec", "try_from", "rs_sv_try_from"),
+    ("stackvec.rs", "StackVec", "deref", "rs_sv_deref"),
+    ("bigint.rs", "", "shl_limbs", "rs_sv_shl_limbs"),
+];
 
 /// rule 27: the shipped copies of the string front-end: (tag, path below the repository root)
 const FRONT: [(&str, &str); 4] = [
@@ -374,7 +439,7 @@ const TARGETS: &[Target] = &[
     t(0, "bellerophon.rs", "", "bellerophon"),
     t(0, "slow.rs", "", "b"),
     t(0, "slow.rs", "", "bh"),
-    Target { out: 0, file: "slow.rs", owner: "", name: "scientific_exponent", fuel: 20, fuels: &[], coq: "", shown: "" },
+    Target { out: 0, file: "slow.rs", owner: "", name: "scientific_exponent", fuel: 20, fuels: &[], coq: "", shown: "", raw: false },
     // ---- gen/SrcBigint.v
     t(1, "bigint.rs", "", "scalar_add"),
     t(1, "bigint.rs", "", "scalar_mul"),
@@ -590,8 +655,9 @@ fn find_fn<'a>(file: &'a syn::File, owner: &str, name: &str) -> Option<(&'a syn:
                     }
                 }
             }
-            // inherent impls, and `impl ops::Index<usize> for ReverseView` (its `index`)
-            syn::Item::Impl(im) if im.trait_.is_none() || (owner == "ReverseView" && name == "index") => {
+            // inherent impls, `impl ops::Index<usize> for ReverseView` (its `index`), and
+            // `impl ops::Deref for StackVec` (its `deref`)
+            syn::Item::Impl(im) if im.trait_.is_none() || (owner == "ReverseView" && name == "index") || is_deref_impl(im, owner, name) => {
                 if let syn::Type::Path(p) = &*im.self_ty {
                     if p.path.segments.last().map(|s| s.ident == owner).unwrap_or(false) {
                         for ii in &im.items {
@@ -610,6 +676,12 @@ fn find_fn<'a>(file: &'a syn::File, owner: &str, name: &str) -> Option<(&'a syn:
     None
 }
 
+fn is_deref_impl(im: &syn::ItemImpl, owner: &str, name: &str) -> bool {
+    owner == "StackVec"
+        && name == "deref"
+        && im.trait_.as_ref().map(|(_, p, _)| quote::quote!(#p).to_string().replace(' ', "") == "ops::Deref").unwrap_or(false)
+}
+
 /// how many definitions `find_fn` could have picked (more than one: refuse, rustc takes the one
 /// whose `cfg` holds)
 fn count_fn(file: &syn::File, owner: &str, name: &str) -> usize {
@@ -620,7 +692,7 @@ fn count_fn(file: &syn::File, owner: &str, name: &str) -> usize {
             syn::Item::Trait(t) if t.ident == owner => {
                 n += t.items.iter().filter(|ti| matches!(ti, syn::TraitItem::Fn(f) if f.sig.ident == name)).count();
             }
-            syn::Item::Impl(im) if im.trait_.is_none() || (owner == "ReverseView" && name == "index") => {
+            syn::Item::Impl(im) if im.trait_.is_none() || (owner == "ReverseView" && name == "index") || is_deref_impl(im, owner, name) => {
                 if let syn::Type::Path(p) = &*im.self_ty {
                     if p.path.segments.last().map(|s| s.ident == owner).unwrap_or(false) {
                         n += im.items.iter().filter(|ii| matches!(ii, syn::ImplItem::Fn(f) if f.sig.ident == name)).count();
@@ -670,6 +742,10 @@ fn known_lib() -> check::Known {
     k.external("BASE10_POWERS", &["crate::table::BASE10_POWERS"]);
     k.external("bigint", &["crate::bigint"]);
     k.external("cmp", &["core::cmp"]);
+    // rule 29: `ptr::write`, `slice::from_raw_parts`, `mem::MaybeUninit` are recognised by their path
+    k.external("ptr", &["core::ptr"]);
+    k.external("slice", &["core::slice"]);
+    k.external("mem", &["core::mem"]);
     k.external("minimal_lexical", &[]);
     // the public re-exports of lib.rs
     k.import("Float", "self::num::Float");
@@ -762,6 +838,14 @@ fn translate(g: &Globals, tg: &Target, sig: &syn::Signature, body: &syn::Block) 
     cx.fuels = tg.fuels.iter().map(|s| s.to_string()).collect();
     cx.file = tg.file.to_string();
     cx.self_kind = if owner.is_empty() { None } else { Some(owner.to_string()) };
+    cx.raw_mode = tg.raw;
+    if tg.raw {
+        // rule 28: every definition of gen/SrcStackVec.v takes `L`
+        cx.needs.l = true;
+        if let Err(m) = &g.stackvec_ok {
+            return err(sig.span(), m);
+        }
+    }
     let mut params: Vec<(Ty, bool)> = vec![];
     let mut self_param: Option<(Ty, bool)> = None;
     let mut binders: Vec<String> = vec![];
@@ -774,10 +858,11 @@ fn translate(g: &Globals, tg: &Target, sig: &syn::Signature, body: &syn::Block) 
                     "Number" => Ty::Num,
                     "Bigint" => Ty::Big,
                     "ReverseView" => Ty::RView,
+                    "StackVec" if tg.raw => Ty::Raw,
                     "BellerophonPowers" => continue, // `self` is the constant BASE10_POWERS = BT
                     _ => return err(r.span(), "`self` in an unknown impl"),
                 };
-                if mutref && ty != Ty::Big {
+                if mutref && ty != Ty::Big && ty != Ty::Raw {
                     return err(r.span(), "`&mut self` is unsupported");
                 }
                 if matches!(ty, Ty::Big | Ty::RView) {
@@ -816,12 +901,14 @@ fn translate(g: &Globals, tg: &Target, sig: &syn::Signature, body: &syn::Block) 
     }
     let ret = match &sig.output {
         syn::ReturnType::Default => Ty::Unit,
+        // raw mode (rule 28): `Option<()>` is a flag next to the (always returned) state
+        syn::ReturnType::Type(_, t) if tg.raw && quote::quote!(#t).to_string().replace(' ', "") == "Option<()>" => Ty::Flag,
         syn::ReturnType::Type(_, t) => cx.conv_ty(t)?,
     };
     if ret == Ty::Float {
         cx.needs.f = true;
     }
-    if matches!(ret, Ty::Opt(_)) && ret != Ty::Opt(Box::new(Ty::Unit)) && !cx.mut_params.is_empty() {
+    if !tg.raw && matches!(ret, Ty::Opt(_)) && ret != Ty::Opt(Box::new(Ty::Unit)) && !cx.mut_params.is_empty() {
         return err(sig.span(), "a function with `&mut` parameters returning `Option<T>`, T other than `()`");
     }
     cx.ret_ty = ret.clone();
@@ -923,11 +1010,17 @@ fn prelude_ext(out: usize) -> String {
         3 => s.push_str(
             "From ML Require Import base.RustSem model.Fmt model.FloatOps model.Num model.Number model.Vec model.SrcLib\n  gen.Src gen.SrcBigint gen.SrcSlow.\n",
         ),
+        8 => s.push_str("From ML Require Import base.RustSem model.Fmt model.Vec model.Bigint model.RawVec model.SrcLib model.SrcLibRaw.\n"),
         _ => s.push_str(
             "From ML Require Import base.RustSem model.Fmt model.FloatOps model.Num model.Number model.Vec model.SrcLib\n  model.SrcLibFront gen.Src gen.SrcBigint gen.SrcSlow gen.SrcParse.\n",
         ),
     }
     s.push_str("Import ListNotations.\nOpen Scope Z_scope.\nOpen Scope rust_scope.\n\n");
+    if out == 8 {
+        s.push_str("(** ** `u16` arithmetic of the `length` field (this file does not import gen/Src.v) *)\n");
+        s.push_str("Definition u16_add (b : build) (x y : Z) := uop b 16 (x + y).\n");
+        s.push_str("Definition u16_sub (b : build) (x y : Z) := uop b 16 (x - y).\n\n");
+    }
     s
 }
 
@@ -1095,6 +1188,7 @@ fn main() {
         number_default: struct_fields(&files["number.rs"], "Number").map(|(_, s)| has_derive(&s.attrs, "Default")).unwrap_or(false),
         shl_limbs_ok: false,
         export_parse_float: false,
+        stackvec_ok: Err("the cell-level translation (rules 28-30) is not active in this run".into()),
     };
     for it in &files["num.rs"].items {
         if let syn::Item::Trait(t) = it {
@@ -1159,6 +1253,17 @@ fn main() {
         if g.limb_ok.is_ok() {
             g.consts.insert("LIMB_BITS".into(), GConst { ty: Ty::Int(IntTy::Usize), term: "64".into(), needs: Needs::default() });
         }
+        g.stackvec_ok = match struct_fields(&files["stackvec.rs"], "StackVec") {
+            Some((f, _))
+                if f == vec![
+                    ("data".to_string(), "[mem::MaybeUninit<bigint::Limb>;bigint::BIGINT_LIMBS]".to_string()),
+                    ("length".to_string(), "u16".to_string()),
+                ] =>
+            {
+                g.limb_ok.clone()
+            }
+            _ => Err("stackvec.rs: `struct StackVec` is no longer `{ data: [mem::MaybeUninit<bigint::Limb>; bigint::BIGINT_LIMBS], length: u16 }`".into()),
+        };
         g.shl_limbs_ok = match find_fn(&files["bigint.rs"], "", "shl_limbs") {
             Some((sig, _)) => {
                 let s = quote::quote!(#sig).to_string().replace(' ', "");
@@ -1218,6 +1323,11 @@ fn main() {
     // untranslatable function only affects that front-end's output file.
     let mut targets: Vec<Target> = TARGETS.iter().map(|t| Target { ..*t }).collect();
     if ext {
+        for (file, owner, name, coq) in RAW_FNS.iter() {
+            targets.push(Target { out: 8, file, owner, name, fuel: 0, fuels: &[], coq, shown: "", raw: true });
+        }
+    }
+    if ext {
         // `minimal_lexical::parse_float` is parse.rs's `parse_float`
         if let Ok(src) = std::fs::read_to_string(format!("{}/lib.rs", dir)) {
             if let Ok(f) = syn::parse_file(&src) {
@@ -1250,7 +1360,7 @@ fn main() {
                             continue;
                         }
                         let coq: &'static str = Box::leak(format!("rs_{}_{}", tag, name).into_boxed_str());
-                        targets.push(Target { out, file: fkey, owner: "", name, fuel: 0, fuels, coq, shown: rel });
+                        targets.push(Target { out, file: fkey, owner: "", name, fuel: 0, fuels, coq, shown: rel, raw: false });
                     }
                     files.insert(fkey.to_string(), f);
                 }
@@ -1272,7 +1382,7 @@ fn main() {
             continue;
         }
         let key = if owner.is_empty() { name.to_string() } else { format!("{}::{}", owner, name) };
-        let table_key = if owner.is_empty() { format!("{}:{}", file, name) } else { key.clone() };
+        let table_key = if owner.is_empty() { format!("{}:{}", if tg.raw { "raw.rs" } else { file }, name) } else { key.clone() };
         let res = match find_fn(&files[file], owner, name) {
             _ if file_problems.contains_key(file) => Err(file_problems[file].clone()),
             Some(_) if count_fn(&files[file], owner, name) != 1 => Err("the function is defined more than once".to_string()),
